@@ -303,7 +303,10 @@ def build(s, key):
             kw = {"width_size": s.get("nn_width", 4), "depth": s.get("nn_depth", 1)}
         b = B.Planar(k[0], dim=s["dim"], cond_dim=s.get("cond_dim"), negative_slope=s.get("negative_slope"), **kw)
         if s.get("cond_dim") is None:
-            b = eqx.tree_at(lambda p: p.params, b, jr.normal(k[1], b.params.shape) * s.get("pscale", 1.0))
+            prm = jr.normal(k[1], b.params.shape) * s.get("pscale", 1.0)
+            if s.get("zero_w"):  # weight vector exactly zero: a finite, reachable parameter value (the map is then a pure shift)
+                prm = prm.at[: s["dim"]].set(0.0)
+            b = eqx.tree_at(lambda p: p.params, b, prm)
         return b
     if op == "AdditiveCondition":
         return B.AdditiveCondition(_lin_map(k[0], tuple(s["cond_shape"]), sh), sh, tuple(s["cond_shape"]))
@@ -402,6 +405,8 @@ def leaf_catalogue():
             L.append({"op": "Planar", "dim": d, "negative_slope": ns})
             L.append({"op": "Planar", "dim": d, "negative_slope": ns, "cond_dim": 2})
         L.append({"op": "Planar", "dim": d, "negative_slope": 0.3, "pscale": 1.5})
+        L.append({"op": "Planar", "dim": d, "negative_slope": 0.3, "zero_w": True})
+        L.append({"op": "Planar", "dim": d, "negative_slope": None, "zero_w": True})
     L += [{"op": "AdditiveCondition", "shape": (3,), "cond_shape": (2,)},
           {"op": "AdditiveCondition", "shape": (2, 3), "cond_shape": (2,)},
           {"op": "AdditiveCondition", "shape": (), "cond_shape": ()},
